@@ -136,7 +136,14 @@ impl Mempool {
             public_key = wallet.public_key;
             transaction.generate(&public_key, 0, 0);
 
-            tx_valid = transaction.validate(&blockchain.utxoset, blockchain, true);
+            // the next block is the earliest one that can carry the transaction: inputs that
+            // have left the retention window by then have been rebroadcast or collected
+            let next_block_id = blockchain.get_latest_block_id() + 1;
+            tx_valid = transaction.validate(&blockchain.utxoset, blockchain, true)
+                && transaction.from.iter().all(|input| {
+                    input.amount == 0
+                        || input.block_id.saturating_add(blockchain.genesis_period) >= next_block_id
+                });
         }
 
         // validate
